@@ -67,8 +67,9 @@ func NewAPIClient(c pb.InsightsClient) *APIClient {
 
 func (a *APIClient) Version(ctx context.Context, vk VersionKey) (Version, error) {
 	if isNPMBundle(vk.Name) {
+		// A bundled package has exactly one version.
 		bv, ok := a.getBundledVersion(vk.Name)
-		if !ok {
+		if !ok || bv.Version.Version != vk.Version {
 			return Version{}, fmt.Errorf("bundled version %v: %w", vk, ErrNotFound)
 		}
 		return bv.Version, nil
@@ -150,7 +151,7 @@ func (a *APIClient) Versions(ctx context.Context, pk PackageKey) ([]Version, err
 func (a *APIClient) Requirements(ctx context.Context, vk VersionKey) ([]RequirementVersion, error) {
 	if isNPMBundle(vk.Name) {
 		bv, ok := a.getBundledVersion(vk.Name)
-		if !ok {
+		if !ok || bv.Version.Version != vk.Version {
 			return nil, fmt.Errorf("bundled version %v: %w", vk, ErrNotFound)
 		}
 		return bv.requirements, nil
